@@ -84,6 +84,16 @@ def regenerate():
         write_if_changed(os.path.join(GEN, "BlocksGen.v"),
                          f"(* translator failed: {status['T-blocks']} *)\n"
                          "Definition translator_failed : False := I.\n")
+    from translator import pins as T9
+    for grp in T9.GROUPS:
+        try:
+            write_if_changed(os.path.join(GEN, f"Pin_{grp}.v"), T9.translate(REPO, grp))
+            status[f"T-pin-{grp}"] = None
+        except Exception as e:
+            status[f"T-pin-{grp}"] = f"{type(e).__name__}: {e}"
+            write_if_changed(os.path.join(GEN, f"Pin_{grp}.v"),
+                             f"(* translator failed: {status['T-pin-' + grp]} *)\n"
+                             "Definition translator_failed : False := I.\n")
     try:
         from translator import lookups as T8
         write_if_changed(os.path.join(GEN, "Lookups.v"), T8.translate(REPO))
